@@ -16,15 +16,19 @@ and final device positions are judged by TLC against the trajectory computed in 
 import copy
 import json
 import random
+import re
 import sys
 
 from harness import wrapproto as wp
 from harness.core import MachineryError
-from harness.props.C23 import run_paired
 from harness.tlc import run_tlc, SPEC
 
 SD = SPEC / "wrappers"
 DESIGN_REF = "DESIGN.md section 7 (C24); notes/C24.md"
+LEVEL_TEXT = ("bounded-exhaustive TLC on the reference semantics of relative_set_wrapper / reset_positions_wrapper with true device "
+              "positions as environment + conformance (replay of every TLC behaviour, random chains, real RunEngine with ledgers); "
+              "rel_set / mvr / rel_list_scan / rel_scan / rel_grid_scan executed with a fault at every message index and on a real "
+              "RunEngine, set commands and final positions judged by TLC against the trajectory computed in RelMon.tla")
 TECHNIQUE = ("TLA+ reference semantics of relative_set / reset_positions with true device positions as environment, exhaustive "
              "TLC; replay through the real wrappers; batch trace validation (scripted driver, real RunEngine, ledgers); "
              "plan-level set sequences of the rel_* plans under a fault at every message index judged by TLC (RelMon)")
@@ -47,8 +51,8 @@ def run(ctx):
     old_hook = sys.unraisablehook
     sys.unraisablehook = lambda *a: None
     try:
-        run_paired(ctx, "C24", "Paired_C24_small.cfg" if ctx.quick else "Paired_C24_large.cfg", KINDS, C24_INVS,
-                   replay_plans(ctx.quick), wp.REL_KINDS + wp.REL_KINDS + ("run", "stage", "lazy_stage"), {}, {})
+        wp.run_paired(ctx, "C24", "Paired_C24_small.cfg" if ctx.quick else "Paired_C24_large.cfg", KINDS, C24_INVS,
+                      replay_plans(ctx.quick), wp.REL_KINDS + wp.REL_KINDS + ("run", "stage", "lazy_stage"), {}, {})
         plan_level(ctx)
     finally:
         sys.unraisablehook = old_hook
@@ -101,7 +105,8 @@ def plan_level(ctx):
         ctx.sample({k: cases[n_lite - 1][k] for k in ("plan", "args", "init", "sets", "ending")})
     else:
         st = res.trace[-1][1].get("c", {}) if res.trace else {}
-        c = cases[st["id"]] if isinstance(st, dict) and "id" in st else {}
+        m = re.search(r"\bid \|-> (\d+)", res.stdout)
+        c = cases[st["id"]] if isinstance(st, dict) and "id" in st else (cases[int(m.group(1))] if m else {})
         ctx.violation(f"plan:{res.violated}:{c.get('plan')}:{c.get('pk')}:ending={c.get('ending')}",
                       f"{res.violated} violated by {c.get('plan')} args={c.get('args')} num={c.get('num')} motors={c.get('pk')} "
                       f"initial={c.get('init')}: set commands {c.get('sets')} final positions {c.get('final')} ending {c.get('ending')}",
